@@ -620,6 +620,18 @@ class Interp:
         ops.check_usable(obj, idx)
         c = ctx()
         if isinstance(obj, list):
+            if isinstance(idx, slice) and idx.step is None and isinstance(v, list):
+                # lst[:0] = items (prepend) / lst[len(lst):] = items (extend): by the list methods
+                if idx.stop == 0 and idx.start in (None, 0):
+                    for k_, x_ in enumerate(v):
+                        self.list_method(obj, "insert", [k_, x_], {})
+                    return
+                if idx.stop is None and idx.start is not None and not isinstance(idx.start, slice):
+                    n_ = ops.sym_len(obj) if has_seg(obj) else len(obj)
+                    same = (idx.start == n_) if isinstance(n_, int) and isinstance(idx.start, int) else c.valid(zint(idx.start) == zint(n_))[0]
+                    if same:
+                        self.list_method(obj, "extend", [v], {})
+                        return
             if has_seg(obj) or isinstance(idx, SInt):
                 raise Unsupported("item store into a list with segments / at symbolic index")
             old = obj[idx] if isinstance(idx, int) and -len(obj) <= idx < len(obj) else _MISSING
